@@ -130,14 +130,14 @@ void dd_longjmp_stub(JanetAssembler *a) {
 /* ---------------- nested definitions (induction) ---------------- */
 Janet dd_disasm_stub(JanetFuncDef *def) {
     Janet x;
-    __CPROVER_assert(def == &dd_sub[0] || def == &dd_sub[1], "roundtrip: exactly the nested definitions are disassembled");
+    __CPROVER_assert(def == &dd_sub[0] || def == &dd_sub[DD_MAX - 1], "roundtrip: exactly the nested definitions are disassembled");
     x.type = JANET_STRUCT;
     x.as.pointer = (void *) def;
     return x;
 }
 JanetAssembleResult dd_asm1_stub(JanetAssembler *parent, Janet source, int flags) {
     JanetAssembleResult r;
-    __CPROVER_assert(source.type == JANET_STRUCT && (source.as.pointer == (void *) &dd_sub[0] || source.as.pointer == (void *) &dd_sub[1]),
+    __CPROVER_assert(source.type == JANET_STRUCT && (source.as.pointer == (void *) &dd_sub[0] || source.as.pointer == (void *) &dd_sub[DD_MAX - 1]),
                      "roundtrip: nested descriptions are the ones printed for the nested definitions");
     r.funcdef = (JanetFuncDef *) source.as.pointer;
     r.error = (const uint8_t *) 0;
